@@ -23,17 +23,20 @@ RULE = (
     "length 0-16 over canonical/degenerate/gap symbols, moltypes dna/rna/protein/text, annotation_offset in {0,5,17}, "
     "for old-style Sequence, new-style Sequence and new-style sequences backed by a SequenceCollection (SeqDataView); "
     "plus exhaustive (start,stop,step) triples applied to every distinct view of bounded depth of a short DNA string "
-    "(quick: L<=3 with views of depth<=1 and L=4 on the full view; thorough: L<=6, depth<=2). Oracle = the same chain on a Python str with a "
+    "(quick: L<=3 on views of <=1 slice, L=4 on the full view, bounds within +-1 of the ends, steps up to +-3; thorough: L<=6 on views of <=1 slice, L<=4 on views of 2 slices). Oracle = the same chain on a Python str with a "
     "17-symbol IUPAC complement table and a parallel list of parent indices. A step is non-trivial when it is "
     "applied to a view (>=1 earlier operation) and the chain so far contains a negative step, an out-of-range bound "
     "or |step|>1; distinct = (implementation, nucleic/other, direction x stride x extent class of the view sliced, "
     "operation with start/stop clamp class and step class)."
 )
 LEVEL_TEXT = (
-    "After every step of every generated chain str/len/iteration/every int index/bytes/array and parent_coordinates "
-    "of the real view are compared with a string-and-index-list model; at chain end ~75 read-only methods are compared "
-    "(value and exception type) with the same call on a fresh sequence built from the view's string. Bounded "
-    "sub-space (all slice triples on all shallow views of short strings) is enumerated completely; beyond it sampled."
+    "After every step of every generated chain str/len/iteration/int indexing/bytes/array and parent_coordinates "
+    "of the real view are compared with a string-and-index-list model (every index -L..L-1 at the last step and in "
+    "the thorough tier; both ends and the middle, from either side, at intermediate steps of the quick tier); at "
+    "chain end a seeded 30% (quick) / 50% (thorough) of ~100 calls of ~80 read-only methods are compared (value, "
+    "exception type, and that the view is left unchanged) with the same call on a fresh sequence built from the "
+    "view's string. The bounded sub-space (all slice triples on all shallow views of short strings) is enumerated "
+    "completely; beyond it sampled."
 )
 LEVEL_NOTE = (
     "held = held on the executions listed in the evidence; trusted: Python str/list slicing, a 17-symbol IUPAC "
@@ -48,6 +51,7 @@ ASSUMPTIONS = [
 ]
 EXHAUSTIVE = {"quick": False, "thorough": False}
 TIMEOUT = {"quick": 2400, "thorough": 14400}
+MAX_JOBS = 8  # a worker costs ~2 CPU-s to start (cogent3 import + contracts); 8 keep the quick tier near 100 CPU-s
 
 IMPLS = ("old", "new", "newcoll")
 NAME = "s1"
@@ -78,16 +82,19 @@ def _exh_values(L, pad):
     return [None] + list(range(-L - pad, L + pad + 1))
 
 
-def _exh_triples(L, pad=3):
+STEPS_QUICK = (None, 1, -1, 2, -2, 3, -3)
+
+
+def _exh_triples(L, pad=3, steps=STEPS):
     vals = _exh_values(L, pad)
-    return [(a, b, c) for c in STEPS for a in vals for b in vals]
+    return [(a, b, c) for c in steps for a in vals for b in vals]
 
 
 def _range_key(r):
     return ("e",) if len(r) == 0 else (r.start, r.stop, r.step)
 
 
-def _exh_views(L, depth, pad=3):
+def _exh_views(L, depth, pad=3, steps=STEPS):
     """representative slice paths of the distinct views of exactly `depth` slices of a length-L string.
 
     Distinctness is judged on the composed Python range (start, stop, step), which keeps the slack of a strided
@@ -98,7 +105,7 @@ def _exh_views(L, depth, pad=3):
         for path, r in level.values():
             if len(r) == 0:
                 continue
-            for t in _exh_triples(L, pad):
+            for t in _exh_triples(L, pad, steps):
                 r2 = r[slice(*t)]
                 k = _range_key(r2)
                 if k not in nxt:
@@ -110,22 +117,36 @@ def _exh_views(L, depth, pad=3):
 def gen_cases(rng, tier):
     cases = []
     quick = tier == "quick"
-    # random chains
-    nb = {"old": 45, "new": 45, "newcoll": 12} if quick else {"old": 200, "new": 200, "newcoll": 60}
+    # random chains; "battery" = fraction of the read-only method battery run at the end of each chain
+    nb = {"old": 14, "new": 14, "newcoll": 5} if quick else {"old": 90, "new": 90, "newcoll": 30}
     for impl, n in nb.items():
         for _ in range(n):
-            cases.append({"kind": "chains", "impl": impl, "seed": rng.randrange(2**32), "n": 70 if quick else 150})
+            cases.append(
+                {
+                    "kind": "chains",
+                    "impl": impl,
+                    "seed": rng.randrange(2**32),
+                    "n": 45 if quick else 150,
+                    "battery_fraction": 0.3 if quick else 0.5,
+                    "index_sweep": "ends" if quick else "full",
+                }
+            )
     # exhaustive slice triples on shallow views (bounds from [-L-pad, L+pad] u {None})
-    maxL, maxdepth, chunk, pad = (4, 1, 8, 2) if quick else (6, 2, 6, 3)
+    #   quick:    L<=4 on the full view (steps up to +-3), L<=3 on every view of one slice (steps up to +-2); pad 1
+    #   thorough: L<=6 on views of <=1 slice (pad 3), L<=4 on views of two slices (pad 2), all steps
     for impl in ("old", "new"):
-        for L in range(0, maxL + 1):
-            for depth in range(0, maxdepth + 1):
-                if quick and depth == 1 and L > 3:
+        for L in range(0, (4 if quick else 6) + 1):
+            for depth in (0, 1) if quick else (0, 1, 2):
+                if (quick and depth == 1 and L > 3) or (depth == 2 and L > 4):
                     continue
-                paths = _exh_views(L, depth, pad)
-                # the empty view of each depth is represented once
+                pad = 1 if quick else (2 if depth == 2 else 3)
+                steps = list((STEPS_QUICK[:5] if depth else STEPS_QUICK) if quick else STEPS)
+                paths = _exh_views(L, depth, pad, steps)
+                chunk = 10 if quick else 7
                 for i in range(0, len(paths), chunk):
-                    cases.append({"kind": "exhaust", "impl": impl, "L": L, "pad": pad, "paths": paths[i : i + chunk]})
+                    cases.append(
+                        {"kind": "exhaust", "impl": impl, "L": L, "pad": pad, "steps": steps, "paths": paths[i : i + chunk]}
+                    )
     rng.shuffle(cases)
     return cases
 
@@ -160,10 +181,30 @@ def _view_violation(v):
     return None
 
 
+_INV_SEEN = {}
+_UNSEEN = object()
+
+
 def view_invariant_holds(self):
+    """every clause is a function of the view's state, so it is decided once per distinct state"""
     INV["evals"] += 1
-    INV["why"] = _view_violation(self)
-    return INV["why"] is None
+    if type(self).__name__ == "SeqDataView":
+        key = (type(self), self.start, self.stop, self.step, self._seq_len, self._offset, self._seqid, self.seq)
+    else:
+        key = (type(self), self.start, self.stop, self.step, self._seq_len)
+    try:
+        why = _INV_SEEN.get(key, _UNSEEN)
+    except TypeError:  # unhashable parent
+        key, why = None, _UNSEEN
+    if why is _UNSEEN:
+        INV["distinct"] = INV.get("distinct", 0) + 1
+        why = _view_violation(self)
+        if key is not None:
+            if len(_INV_SEEN) > 20000:
+                _INV_SEEN.clear()
+            _INV_SEEN[key] = why
+    INV["why"] = why
+    return why is None
 
 
 def view_invariant_error(self):
@@ -373,6 +414,7 @@ class Ctx:
         self.off = case.get("offset", 0)
         self.start = case.get("start", "plain")
         self.other_seed = case.get("other_seed", 0)
+        self.index_sweep = case.get("index_sweep", "full")
         self.ops = []
 
     def replay(self, battery):
@@ -385,6 +427,7 @@ class Ctx:
             "start": self.start,
             "ops": [list(o) for o in self.ops],
             "other_seed": self.other_seed,
+            "index_sweep": self.index_sweep,
             "battery": battery,
         }
 
@@ -419,7 +462,7 @@ class Ctx:
             self.witness(exc_mechanism(prefix, e), battery, error=repr(e)[:300], **detail)
 
 
-def observe(ctx, seq, m, opname, light=False):
+def observe(ctx, seq, m, opname, light=False, last=True):
     """compare every per-step observation; returns False at the first divergence (after recording it)"""
     res = ctx.res
     pre = f"C01/{opname}/{ctx.impl}"
@@ -463,7 +506,11 @@ def observe(ctx, seq, m, opname, light=False):
     if not decide("iter", it == list(m.ms), got=it):
         return False
     L = len(m.ms)
-    for i in list(range(L)) + list(range(-L, 0)):
+    sweep = list(range(L)) + list(range(-L, 0))
+    if ctx.index_sweep == "ends" and not last and L > 5:
+        # intermediate steps of the quick tier: both ends and the middle, from either side
+        sweep = sorted({0, 1, L // 2, L - 2, L - 1, -1, -2, -(L // 2), -L + 1, -L})
+    for i in sweep:
         try:
             c = str(seq[i])
         except Exception as e:  # noqa: BLE001
@@ -833,6 +880,11 @@ def run_battery(ctx, seq, m, only=None, fraction=1.0):
         if got_exc == exp_exc and got == exp:
             continue
         cls, diagnosis = classify_parity(ctx, m, fn, got, got_exc, vclass)
+        if group == "to_rich_dict" and got_exc is None and exp_exc is None and isinstance(got, list) and len(got) > 2:
+            pred = predict_sliced_twice(seq, m)
+            if pred is not None and pred != m.ms and got[2] == pred:
+                cls = "sliced-twice"
+                diagnosis = "the serialised string is the displayed string sliced again with the parent coordinates, and the step is applied again on loading"
         detail["diagnosis"] = diagnosis
         prefix = f"C01/parity/{ctx.impl}/{group}/{cls}"
         if err is not None and exp_exc is None:
@@ -841,6 +893,23 @@ def run_battery(ctx, seq, m, only=None, fraction=1.0):
             ctx.witness(f"{prefix}/no-{exp_exc}" if got_exc is None else f"{prefix}/raises-{got_exc}-not-{exp_exc}", [label], **detail)
         else:
             ctx.witness(prefix, [label], **detail)
+
+
+def predict_sliced_twice(seq, m):
+    """what a SeqDataView-backed sequence deserialises to if to_rich_dict slices str_value (already sliced and
+    stepped) with the plus-strand bounds and the loader then applies the step once more; None if not applicable"""
+    v = getattr(seq, "_seq", None)
+    if type(v).__name__ != "SeqDataView":
+        return None
+    try:
+        if v.step < 0:
+            a, b = v.stop + v._seq_len + 1, v.start + v._seq_len + 1
+        else:
+            a, b = v.start, v.stop
+        out = v.str_value[a:b][:: v.step]
+    except Exception:  # noqa: BLE001
+        return None
+    return comp(out, m.mt) if v.step < 0 else out
 
 
 def rebuild(ctx, off=None):
@@ -897,6 +966,8 @@ class Chain:
         self.res = res
         self.ctx = Ctx(res, case)
         self.light = case.get("light", False)
+        self.nops = len(case.get("ops", ()))
+        self.k = 0
         self.seq = None
         self.m = None
         self.hostile = False
@@ -914,7 +985,7 @@ class Chain:
         if ctx.start == "collrc":
             m = m.apply(("rc",))
             self.hostile = True
-        if not observe(ctx, seq, m, "construct", self.light):
+        if not observe(ctx, seq, m, "construct", self.light, last=self.nops == 0):
             return False
         self.seq, self.m = seq, m
         return True
@@ -923,6 +994,7 @@ class Chain:
         """apply op to both; False = diverged (witness recorded). advance=False leaves the chain where it was."""
         ctx, res, m, seq, impl = self.ctx, self.res, self.m, self.seq, self.ctx.impl
         op = tuple(op)
+        self.k += 1
         n = len(m.ms)
         opname = direction_case(op, m)
         prior = m.view_class()
@@ -950,7 +1022,7 @@ class Chain:
                 ctx.witness(f"C01/{opname}/{impl}/index-out-of-range-accepted", got=str(new))
                 return False
             hostile = self.hostile or op_hostile(op, n)
-            if not observe(ctx, new, exp, opname, self.light):
+            if not observe(ctx, new, exp, opname, self.light, last=self.k >= self.nops):
                 return False
             if depth >= 1 and hostile:
                 res.sig(impl, self.mtclass, prior, op_class(op, n))
@@ -1045,7 +1117,7 @@ def rand_ops(rng, mt, L):
 def run_case(case):
     res = Result()
     _setup()
-    inv0, br0 = INV["evals"], dict(BR)
+    inv0, invd0, br0 = INV["evals"], INV.get("distinct", 0), dict(BR)
     kind = case["kind"]
     if kind == "one":
         run_chain(res, case)
@@ -1065,7 +1137,8 @@ def run_case(case):
                 "ops": rand_ops(rng, mt, len(s)),
                 "other_seed": rng.randrange(2**31),
                 "battery": None,
-                "battery_fraction": 0.5,
+                "battery_fraction": case.get("battery_fraction", 0.5),
+                "index_sweep": case.get("index_sweep", "full"),
             }
             run_chain(res, one)
             res.count("chains")
@@ -1076,7 +1149,7 @@ def run_case(case):
         res.sample({k: one[k] for k in ("impl", "moltype", "seq", "offset", "ops")})
     elif kind == "exhaust":
         L = case["L"]
-        triples = _exh_triples(L, case.get("pad", 3))
+        triples = _exh_triples(L, case.get("pad", 3), case.get("steps", STEPS))
         for path in case["paths"]:
             one = {
                 "kind": "one",
@@ -1099,6 +1172,7 @@ def run_case(case):
     else:
         raise ValueError(kind)
     res.count("contract-evaluations", INV["evals"] - inv0)
+    res.count("contract-distinct-view-states", INV.get("distinct", 0) - invd0)
     for k, v in BR.items():
         d = v - br0.get(k, 0)
         if d:
